@@ -48,19 +48,115 @@ def load_prog(kind='core'):
     return _PROG, hsh
 
 
+_HARNESS_CACHE = {}
+
+
 def _explore_one(arg):
-    modname, hname, tier, timeout_ms, budget_s = arg
+    """one slice of one harness: explores from the given decision prefixes for about `slice_s` seconds and returns the
+    summary of what it covered plus the prefixes it did not get to"""
+    modname, hname, tier, timeout_ms, deadline, work, slice_s, seen_before = arg
     import importlib
     from mirsym.driver import explore
     try:
-        mod = importlib.import_module(modname)
-        h = [x for x in mod.harnesses(tier) if x.name == hname][0]
+        key = (modname, hname, tier)
+        h = _HARNESS_CACHE.get(key)
+        if h is None:
+            mod = importlib.import_module(modname)
+            h = [x for x in mod.harnesses(tier) if x.name == hname][0]
+            _HARNESS_CACHE[key] = h
         prog, hsh = load_prog(getattr(h, 'program', 'core'))
         dump = []
-        res = explore(prog, h, timeout_ms=timeout_ms, dump_smt=dump, deadline=time.time() + budget_s)
-        return summarize(h, res, dump)
+        res = explore(prog, h, timeout_ms=timeout_ms, dump_smt=dump, deadline=deadline, initial_work=work, slice_s=slice_s,
+                      seen_before=seen_before)
+        s_ = summarize(h, res, dump)
+        s_['remaining'] = res.remaining
+        return s_
     except Exception as e:
-        return {'harness': hname, 'fatal': '%s\n%s' % (e, traceback.format_exc())}
+        return {'harness': hname, 'fatal': '%s\n%s' % (e, traceback.format_exc()), 'remaining': []}
+
+
+def merge_summaries(a, b):
+    """combine the summaries of two disjoint slices of the same harness"""
+    if 'fatal' in a or 'fatal' in b:
+        a['fatal'] = a.get('fatal') or b.get('fatal')
+        return a
+    a['paths'] += b['paths']
+    for k in ('n_paths', 'nontrivial', 'queries', 'solver_ms', 'unknown', 'wall'):
+        a[k] += b[k]
+    a['max_query_ms'] = max(a['max_query_ms'], b['max_query_ms'])
+    a['violations'] += b['violations']
+    a['errors'] += b['errors']
+    a['bound_hits'] += b['bound_hits']
+    for k in ('fns', 'models', 'stubs', 'bound_notes'):
+        a[k] = sorted(set(a[k]) | set(b[k]))
+    for k, v in b['outcome_classes'].items():
+        a['outcome_classes'][k] = a['outcome_classes'].get(k, 0) + v
+    a['smt'] = (a['smt'] + b['smt'])[:8]
+    return a
+
+
+def explore_all(hs, tier, timeout_ms, budget_s, nproc):
+    """every harness, sliced: a worker explores a subtree for a few seconds and returns the rest of its frontier, which is
+    queued again - so that one harness with thousands of paths is spread over all cores instead of pinning one"""
+    slice_s = 6 if tier == 'quick' else 15
+    t_start = time.time()
+    merged = {}
+    seen = {}
+    dead = set()
+    pending = []
+    queue = [(m, h.name, [[]]) for m, h in hs]
+    with multiprocessing.Pool(nproc) as pool:
+        while queue or pending:
+            while queue and len(pending) < nproc * 2:
+                m, hn, work = queue.pop(0)
+                if hn in dead:
+                    continue
+                deadline = t_start + budget_s
+                pending.append((hn, m, pool.apply_async(_explore_one, ((m, hn, tier, timeout_ms, deadline, work, slice_s, seen.get(hn, 0)),))))
+            still = []
+            progressed = False
+            for hn, m, fut in pending:
+                if not fut.ready():
+                    still.append((hn, m, fut))
+                    continue
+                progressed = True
+                s_ = fut.get()
+                s_.setdefault('harness', hn)
+                rem = s_.pop('remaining', [])
+                if hn in merged:
+                    merged[hn] = merge_summaries(merged[hn], s_)
+                else:
+                    merged[hn] = s_
+                seen[hn] = merged[hn].get('n_paths', 0)
+                if 'fatal' in s_ or any(e.startswith(('time budget', 'path budget')) for e in s_.get('errors', [])):
+                    dead.add(hn)
+                    continue
+                # split the leftover frontier into a few jobs
+                if rem:
+                    k = max(1, min(len(rem), 4))
+                    for i in range(k):
+                        part = rem[i::k]
+                        if part:
+                            queue.append((m, hn, part))
+            pending = still
+            if not progressed:
+                time.sleep(0.05)
+    out = []
+    for m, h in hs:
+        s_ = merged.get(h.name) or {'harness': h.name, 'fatal': 'no result'}
+        if 'errors' in s_:
+            # one budget message per harness is enough
+            seen_msgs = set()
+            errs = []
+            for e in s_['errors']:
+                key = e.split(' after ')[0] if e.startswith('time budget') else e
+                if key in seen_msgs:
+                    continue
+                seen_msgs.add(key)
+                errs.append(e)
+            s_['errors'] = errs
+        out.append(s_)
+    return out
 
 
 def summarize(h, res, dump):
@@ -208,7 +304,10 @@ def get_harnesses(pid, tier):
 def check_mirsym(pid, tier, seed):
     t0 = time.time()
     timeout_ms = QUICK_QUERY_MS if tier == 'quick' else THOROUGH_QUERY_MS
-    budget_s = 150 if tier == 'quick' else 1100
+    if os.environ.get('VERIF_QUERY_MS'):
+        timeout_ms = int(os.environ['VERIF_QUERY_MS'])      # for exercising the undecided / retry paths
+    # wall-clock budgets per property: generous, because the machine may be shared; the path budgets bound the work
+    budget_s = 900 if tier == 'quick' else 7200
     hs = get_harnesses(pid, tier)
     if not hs:
         print('no harness registered for %s' % pid)
@@ -218,10 +317,7 @@ def check_mirsym(pid, tier, seed):
     hashes = {}
     for k in kinds:
         _, hashes[k] = load_prog(k)
-    args = [(m, h.name, tier, timeout_ms, budget_s) for m, h in hs]
-    nproc = min(14, len(args))
-    with multiprocessing.Pool(nproc) as pool:
-        sums = pool.map(_explore_one, args, chunksize=1)
+    sums = explore_all(hs, tier, timeout_ms, budget_s, 14)
     hmap = {h.name: h for _, h in hs}
     inconclusive = []
     all_viol = []
